@@ -339,6 +339,13 @@ void mon_c17(CaseCtx &c, Rng &){
         }
         std::string cls = s.parallel ? (((long) s.budget - known_before < (long)(s.jobs * s.batch)) ? "parallel:remaining-budget-smaller-than-workers-x-batch" : std::string("parallel:") + fam_name(s.family))
                                      : std::string("sequential:") + fam_name(s.family);
+        // recorded finding F-ckpt3: samples parked inside the grid's construction data at the time of the checkpoint are not counted after a
+        // restart; that specific cause (sequential restart, overshoot not larger than the number of parked samples) gets its own key
+        if (mode == "restart" && !s.parallel && have_saved && g_hooks.recovered_points >= 0){
+            long parked = nsaved - g_hooks.recovered_points;
+            long over = std::max(total, (long) grid.getNumLoaded()) - (long) s.budget;
+            if (parked > 0 && over > 0 && over <= parked) cls += ":restart-with-parked-samples-not-counted";
+        }
         if (total > (long) s.budget)
             c.viol("budget-exceeded:" + cls, J().i("budget", s.budget).i("distinct_saved_or_evaluated", total).i("launched_here", launched.load()).i("saved_before", nsaved)
                    .i("recovered_points_hook", g_hooks.recovered_points).i("jobs", s.jobs).i("batch", s.batch).str("fault", fclass).obj());
